@@ -267,7 +267,17 @@ def fill_evidence(ev, pinfo, results, static_facts, undecided, known_lines):
             groups.setdefault(p['group'], [0, 0])
             groups[p['group']][0] += 1
             groups[p['group']][1] += p['status'] == 'SUCCESS'
-        harn.append({'harness': h.name, 'mode': h.mode, 'function_under_contract': h.enforce,
+        style = ('dfcc enforce-contract' if h.enforce else ('light: requires assumed / ensures asserted by the harness' + (', loop contracts under dfcc' if h.dfcc else ', plain cbmc')))
+        light_fns = [core.plain(x) for x in (h.functions or [])]
+        extracted = [i for i in r.get('injected', []) if i.get('kind') == 'extract']
+        harn.append({'harness': h.name, 'mode': h.mode, 'function_under_contract': h.enforce, 'style': style,
+                     'functions_checked': light_fns, 'flags': h.flags, 'unwind': h.unwind,
+                     'stubbed_out_callees': h.meta.get('stub_out', []),
+                     'extracted_from_real_code': [{'function': i['function'], 'as': i['name'], 'lines': i['lines'], 'sha256': i['sha256'], 'file': i['file']} for i in extracted],
+                     'checks_not_reached_hence_not_counted': sum(1 for p in r['props'] if p['kind'] == 'unreached'),
+                     'out_of_scope_checks': sum(1 for p in r['props'] if p['kind'] == 'out-of-scope'),
+                     'ignore_rules': h.ignore,
+                     'cbmc_cmd': (r.get('cmds') or [''])[-1] if not h.meta.get('reachability') else (r.get('cmds') or ['', ''])[-2],
                      'callees_replaced_by_contract': h.replace, 'real_tus': h.tus, 'back_end': 'cbmc 6.11.0 default SAT (MiniSat 2.2.1)' if not any(f in ('--z3', '--cvc5') or f.startswith('--external-sat') for f in h.flags) else ' '.join(h.flags),
                      'status': r['status'], 'detail': r['detail'][:500], 'solver_s': r['solver_s'], 'wall_s': r.get('wall_s'),
                      'obligations': len(o), 'discharged': len(d), 'obligation_groups': {k: '%d/%d' % (v[1], v[0]) for k, v in sorted(groups.items())},
@@ -275,6 +285,8 @@ def fill_evidence(ev, pinfo, results, static_facts, undecided, known_lines):
                      'loop_contracts_applied': r.get('loop_contracts_applied', 0), 'cover_points_reached': '%s/%s' % (r.get('cover_satisfied', '-'), r.get('cover_goals', '-')), 'notes': h.notes})
         if h.enforce:
             fns.add(core.plain(h.enforce))
+        for x in light_fns:
+            fns.add(x + (' [bounded]' if bounded else ''))
         for x in h.replace:
             pass
         for p in o[:3]:
